@@ -685,7 +685,7 @@ fn run_strategy(k: usize) -> impl Strategy<Value = RunCase> {
 }
 
 pub fn run_all(ctx: &mut Ctx, replay: Option<&Path>) {
-    ctx.rule("(a) component-level: a configuration consisting of one evaluation step with identifier Global/A/B, run (init, require, execute) on a prepared state: population 0-12 (unevaluated / correctly / stale evaluated individuals, duplicates by value), empty stack, 0-2 populations below, evaluator Sequential / Parallel inside a rayon pool of 1/2/4/16 threads (with latency jitter) / a recording harness evaluator, registered under the requested identifier, another one, or not at all, in the same or an outer scope; oracle: same individuals in the same order, all carrying f(solution), Evaluations == population size, objective call log == population as a multiset, evaluator back in the scope it came from, missing evaluator => Err before any objective call; non-trivial = population >= 2 with a registered evaluator. (a') shadowed evaluators (exhaustive): evaluation steps before, inside and after a scope whose initialiser registers its own evaluator under the same identifier; every step must apply the evaluator its scope resolves (innermost), the run's evaluator must be applied again after the scope, counts exact. (b) run-level: every template, iteration- or evaluation-budget-bounded, sequential or parallel: the same audit around every PopulationEvaluator step (observer Before/After), reported evaluations == objective calls at the end, budget overshoot < one pass; non-trivial = run with an evaluation step on >= 2 individuals; distinct by case");
+    ctx.rule("(a) component-level: a configuration consisting of one evaluation step with identifier Global/A/B, run (init, require, execute) on a prepared state: population 0-12 (unevaluated / correctly / stale evaluated individuals, duplicates by value), empty stack, 0-2 populations below, evaluator Sequential / Parallel inside a rayon pool of 1/2/4/16 threads (with latency jitter) / a recording harness evaluator / a harness evaluator that evaluates 0-4 probes of its own and adds them to the counter itself (the step then adds the population size on top), registered under the requested identifier, another one, or not at all, in the same or an outer scope; oracle: same individuals in the same order, all carrying f(solution), Evaluations == population size, objective call log == population as a multiset, evaluator back in the scope it came from, missing evaluator => Err before any objective call; non-trivial = population >= 2 with a registered evaluator. (a') shadowed evaluators (exhaustive): evaluation steps before, inside and after a scope whose initialiser registers its own evaluator under the same identifier; every step must apply the evaluator its scope resolves (innermost), the run's evaluator must be applied again after the scope, counts exact. (b) run-level: every template, iteration- or evaluation-budget-bounded, sequential or parallel: the same audit around every PopulationEvaluator step (observer Before/After), reported evaluations == objective calls at the end, budget overshoot < one pass; non-trivial = run with an evaluation step on >= 2 individuals; distinct by case");
     ctx.assume("rayon's scheduler is not owned by the harness: pool sizes and objective latency jitter perturb completion order (counted), they do not enumerate it");
     let s = StepCheck;
     if let Some(p) = replay {
